@@ -3501,6 +3501,19 @@ impl Interpreter {
 
         let is_async = gen_state.borrow().is_async;
 
+        // A string is iterated by its characters
+        let string_guard = self.heap.create_guard();
+        let iterable = if let JsValue::String(text) = &iterable {
+            let chars = text
+                .as_str()
+                .chars()
+                .map(|c| JsValue::String(JsString::from(c.to_string())))
+                .collect();
+            JsValue::Object(self.create_array_from(&string_guard, chars))
+        } else {
+            iterable
+        };
+
         // Try to get Symbol.iterator method
         let JsValue::Object(obj) = &iterable else {
             self.env = saved_env;
